@@ -1,31 +1,114 @@
 package c02
 
 import (
+	"strconv"
 	"testing"
 
-	"pgregory.net/rapid"
+	"verif/internal/gen"
 	"verif/internal/pbt"
 )
 
-// Native coverage-guided fuzzing of the pair (alignment -> write -> parse), thorough tier:
-// the fuzzer's bytes drive the same generator as TestRoundTrip (rapid.MakeFuzz), restricted to
-// one format per target, and the same oracle judges the case. A failing case is stored through
-// pbt.SideViolation under the name of TestRoundTrip, which re-runs it alone.
-func fuzzFormat(f *testing.F, format string) {
-	f.Fuzz(rapid.MakeFuzz(func(t *rapid.T) {
-		var c rtCase
-		c.Cfg.Format = format
-		if format == "phylip" {
-			c.Cfg.Strict = rapid.Bool().Draw(t, "strict")
-			c.Cfg.OneLine = rapid.Bool().Draw(t, "oneline")
-			c.Cfg.NoBlock = rapid.Bool().Draw(t, "noblock")
+// Native coverage-guided fuzzing of the pair (alignment -> write -> parse), thorough tier.
+// The fuzzer's bytes are decoded into a case of TestRoundTrip (one byte per residue, so that
+// mutation and minimisation work on the alignment itself) and the same oracle judges it. A
+// failing case is stored through pbt.SideViolation under the name of TestRoundTrip, which
+// re-runs it alone.
+//
+// (rapid.MakeFuzz over the generator of TestRoundTrip was tried first: a case needs 8 bytes per
+// draw, i.e. tens of KiB per input, and the fuzzer then spends its whole budget minimising.)
+
+// decodeCase: opt = option bits (Phylip strict/one-line/no-block, protein, number of rows);
+// data = for each row a name descriptor, then the residues row after row
+func decodeCase(format string, data []byte, opt uint16) (c rtCase, ok bool) {
+	c.Cfg.Format = format
+	if format == "phylip" {
+		c.Cfg.Strict, c.Cfg.OneLine, c.Cfg.NoBlock = opt&1 != 0, opt&2 != 0, opt&4 != 0
+	}
+	chars := ntTiers[1]
+	if opt&8 != 0 {
+		chars = aaTiers[1]
+	}
+	n := 1 + int(opt>>4)%6
+	d := domOf(c.Cfg)
+	used := map[string]bool{}
+	pos := 0
+	next := func() int {
+		if pos >= len(data) {
+			return 100
 		}
-		c.Ali = genAli(t, domOf(c.Cfg), 400, c.Cfg)
+		pos++
+		return int(data[pos-1])
+	}
+	names := make([]string, n)
+	for i := range names {
+		var name string
+		switch b := next(); {
+		case b < 96:
+			list := dictOf(d)
+			name = list[(b*256+next())%len(list)]
+		case b < 128:
+			name = "s" + strconv.Itoa(i)
+		default:
+			l := 1 + (b-128)%16
+			buf := make([]byte, l)
+			for j := range buf {
+				buf[j] = printable[next()%len(printable)]
+			}
+			name = string(buf)
+		}
+		names[i] = uniqueName(name, d, i, used)
+	}
+	rest := data[pos:]
+	l := len(rest) / n
+	if l < 1 {
+		return c, false
+	}
+	if l > 1000 {
+		l = 1000
+	}
+	c.Ali.Alphabet = "auto"
+	for i := range names {
+		b := make([]byte, l)
+		for j := range b {
+			b[j] = chars[int(rest[i*l+j])%len(chars)]
+		}
+		c.Ali.Rows = append(c.Ali.Rows, gen.Row{Name: names[i], Seq: string(b)})
+	}
+	return c, true
+}
+
+// seedData: three plainly named rows of l patterned residues
+func seedData(l int) []byte {
+	data := []byte{100, 100, 100}
+	for i := 0; i < 3; i++ {
+		for j := 0; j < l; j++ {
+			data = append(data, byte(7*j+3*i+j/11))
+		}
+	}
+	return data
+}
+
+func fuzzFormat(f *testing.F, format string) {
+	for _, l := range []int{1, 9, 10, 11, 49, 50, 51, 60, 61, 80, 81, 120, 161} {
+		for _, flags := range []uint16{0, 7, 8, 13} {
+			f.Add(seedData(l), 0x20|flags)
+		}
+	}
+	// hostile names: dictionary entries, a 10 character name, two names equal up to case
+	f.Add([]byte{0, 17, 0, 18, 137, 1, 2, 3, 4, 5, 6, 7, 8, 9, 10, 1, 2, 3, 4, 5, 6}, uint16(0x20|1))
+	f.Fuzz(func(t *testing.T, data []byte, opt uint16) {
+		if len(data) > 8192 {
+			return
+		}
+		c, ok := decodeCase(format, data, opt)
+		if !ok {
+			return
+		}
 		if _, err := pbt.Eval(c, checkRT); err != nil {
 			pbt.SideViolation("TestRoundTrip", c, err.Error())
 			t.Fatalf("%v", err)
 		}
-	}))
+	})
 }
 
 func FuzzRoundTripFasta(f *testing.F)     { fuzzFormat(f, "fasta") }
